@@ -493,6 +493,13 @@ func c02Codecs(c *Ctx, rule string) {
 			switch x := n.(type) {
 			case *ast.AssignStmt:
 				lhs = x.Lhs
+				// a configuration value set once (`fs.autoFlushCache = true` in a constructor helper that was
+				// written out at its call site) is not a counter that statements advance
+				if x.Tok == token.ASSIGN && len(x.Rhs) == 1 && len(x.Lhs) == 1 {
+					if cv := f.constOf(x.Rhs[0]); cv != nil && cv.Kind() == constant.Bool {
+						lhs = nil
+					}
+				}
 			case *ast.IncDecStmt:
 				lhs = []ast.Expr{x.X}
 			}
